@@ -141,7 +141,7 @@ theorem startAll_inv (cfg : Cfg) (w : Store) : ∀ (as : List Asg) (p : Pool) (n
   | cons a rest ih =>
     intro p n inv
     have inv1 : PoolInv { p with availC := p.availC - a.cpu, availR := p.availR - a.ram,
-                                 active := p.active ++ [mkCtr w n a] } (n + 1) := by
+                                 active := p.active ++ [mkCtr w n a], created := p.created + 1 } (n + 1) := by
       constructor
       · simp only [cpuSum_append, cpuSum_cons, cpuSum_nil, mkCtr]; have := inv.cpu; omega
       · simp only [ramSum_append, ramSum_cons, ramSum_nil, mkCtr]; have := inv.ram; omega
